@@ -51,9 +51,10 @@ def replay_factory(sc, ins, outmap):
 
 
 def cfgs(tier):
-    c = [("symL_ny2", 2, True, False), ("symL_ny3", 3, True, False), ("full_ny3", 3, False, False)]
+    # one half model and one full model carry their symmetry flag as a NumPy boolean (the result of a comparison)
+    c = [("symL_ny2[numpy flag]", 2, np.True_, False), ("symL_ny3", 3, True, False), ("full_ny3", 3, False, False)]
     if tier == "thorough":
-        c += [("symR_ny3", 3, True, True), ("full_ny5", 5, False, False), ("symL_ny4", 4, True, False)]
+        c += [("symR_ny3", 3, True, True), ("full_ny5[numpy flag]", 5, np.False_, False), ("symL_ny4", 4, True, False)]
     return c
 
 
